@@ -226,3 +226,24 @@ def fn_squash(x):
 @onnx_function
 def fn_encoder(x):
     return fn_squash(fn_shift(fn_scale(x))) + fn_scale(x)
+
+
+# C03: function bodies that fold to the identity (the body's output IS its input after optimisation)
+@onnx_function
+def fn_identity(x):
+    return x
+
+
+@onnx_function
+def fn_transpose_pair(x):
+    return x.T.T
+
+
+@onnx_function
+def fn_reshape_roundtrip(x):
+    return x.reshape(-1).reshape(x.shape)
+
+
+@onnx_function
+def fn_same_dtype_cast(x):
+    return x.astype(x.dtype)
